@@ -95,16 +95,17 @@ Theorem c09_void_oracle_accepts_model : forall ops, vq_oracle ops (vq_run ops) =
 Proof. exact vq_oracle_accepts_model. Qed.
 Print Assumptions c09_void_oracle_accepts_model.
 
-(* ---- interleaving model (queue<T>): ANY number of producer / consumer / unblock_pop threads, ANY schedule of ANY length.
+(* ---- interleaving model (queue<T>): ANY number of producer / consumer / unblock_pop / unblock_push / size threads and a destroyer thread, ANY schedule of ANY length.
    A push or pop is a critical section followed, after the unlock, by a separate step that resolves the promise taken
    inside (QueueDefs.tstep).  In every reachable state the items pushed so far (every producer's first k values, tagged
    with producer and index, hence pairwise distinct: NoDup) are exactly, as a multiset, the items received by pops + the
-   items in flight between a critical section and its resolution + the queued items + the items held by blocked pushes;
+   items in flight between a critical section and its resolution + the queued items + the items held by blocked pushes +
+   the items withdrawn by unblock_push + the items destroyed with the queue;
    and items / waiting consumers are never both non-empty. ---- *)
 Theorem c09_conc_conservation : forall thrs s, Forall t_fresh thrs -> t_reachable None thrs s ->
   NoDup (t_plog s) /\
   Permutation (t_plog s)
-    (map snd (ritems (t_rlog s)) ++ map snd (iitems (t_infl s)) ++ t_items s ++ map fst (t_blocked s)) /\
+    (map snd (ritems (t_rlog s)) ++ map snd (iitems (t_infl s)) ++ t_items s ++ map fst (t_blocked s) ++ t_wlog s ++ t_dlog s) /\
   (forall p, filter (of_p p) (t_plog s) = expected_plog p (nth_error (t_thr s) p)) /\
   (t_items s = [] \/ t_waiters s = []).
 Proof. intros thrs s. exact (tq_conservation None thrs s I). Qed.
@@ -117,19 +118,20 @@ Theorem c09_conc_per_producer_order : forall thrs s c p, Forall t_fresh thrs -> 
 Proof. intros thrs s c p. exact (tq_per_producer_order None thrs s c p I). Qed.
 Print Assumptions c09_conc_per_producer_order.
 
-(* items are matched to pops in critical-section order, which is a prefix of the push order; what a consumer has
-   received plus what is in flight for it is exactly its share of that matching, in order (single consumer: FIFO) *)
-Theorem c09_conc_assignment_prefix : forall thrs s, Forall t_fresh thrs -> t_reachable None thrs s ->
-  t_plog s = map snd (t_alog s) ++ t_items s ++ map fst (t_blocked s) /\
+(* items are matched to pops in critical-section order; matched ++ queued ++ held-by-blocked is, producer by producer, in
+   push order (nothing overtakes, also not while producers are blocked); what a consumer has received plus what is in
+   flight for it is exactly its share of the matching, in order (single consumer: FIFO) *)
+Theorem c09_conc_assignment_in_push_order : forall thrs s, Forall t_fresh thrs -> t_reachable None thrs s ->
+  (forall p, Sorted.StronglySorted lt (map it_k (filter (of_p p) (map snd (t_alog s) ++ t_items s ++ map fst (t_blocked s))))) /\
   forall c, map snd (filter (is_c c) (t_alog s)) = got c s ++ map snd (filter (is_c c) (iitems (t_infl s))).
-Proof. intros thrs s. exact (tq_assignment_is_push_prefix None thrs s I). Qed.
-Print Assumptions c09_conc_assignment_prefix.
+Proof. intros thrs s. exact (tq_assignment_in_push_order None thrs s I). Qed.
+Print Assumptions c09_conc_assignment_in_push_order.
 
 Example c09_conc_nonvacuous :
-  let thrs := flat_map t_decode_thr [[1; 101; 102]; [1; 201]; [2; 2]; [2; 1]]%Z in
-  let s := fst (t_run_sched 40 (t_init None thrs) [2; 2; 0; 1; 0; 0; 1; 1; 0; 0]%Z []) in
+  let thrs := flat_map (t_decode_thr false) [[1; 101; 102]; [1; 201]; [2; 2]; [2; 1]]%Z in
+  let s := fst (t_run_sched 60 (t_init None thrs) [2; 2; 0; 1; 0; 0; 1; 1; 0; 0]%Z []) in
   Forall t_fresh thrs /\ t_reachable None thrs s /\
-  map it_v (got 2 s) = [101; 102]%Z /\ map it_v (got 3 s) = [201]%Z /\ t_infl s = [] /\ t_items s = [].
+  map it_v (got 2 s) = [101; 201]%Z /\ map it_v (got 3 s) = [102]%Z /\ t_infl s = [] /\ t_items s = [].
 Proof. split; [apply t_decode_fresh|]. split; [eexists; eexists; eexists; reflexivity|]. vm_compute. repeat split. Qed.
 
 (* non-vacuity: three pops wait, unblock_pop fails the oldest, two pushes serve the next two in order, a third is queued *)
